@@ -149,66 +149,9 @@ def run(ctx: Ctx) -> None:
     if sites < 8:
         raise AnalysisError(f"R12.wb: only {sites} (site, path) instances of cache.write_block in the write-back system")
 
-    r = ctx.rule("R12.set", "CacheSet.write: dirty victim captured before overwrite; written blocks dirty")
-    f = m.method("CacheSet", "write", own=True)
-    n = 0
-    for p in function_paths(f.node):
-        if p.term != "return":
-            r.viol("CacheSet.write|return", f.loc(), "CacheSet.write: a path does not return (hit, displaced)", p.labels())
-            continue
-        n += 1
-        facts: set = set()
-        write_idx = None
-        capture_idx = None
-        capture_name = None
-        dirty_set = False
-        dirty_test = None
-        for i, e in enumerate(p.events):
-            if e.kind == "test":
-                fs = facts_of(e.node, bool(e.pol))
-                facts |= fs
-                for a, v in fs:
-                    if a.endswith(".dirty_bit"):
-                        dirty_test = v
-            if e.kind == "stmt":
-                st = e.node
-                for c in calls_in(st):
-                    if isinstance(c.func, ast.Attribute) and c.func.attr == "write" and not self_attr(c.func.value, f.params[0]) \
-                            and write_idx is None and "replacement_strategy" not in ast.unparse(c.func):
-                        write_idx = i
-                if isinstance(st, ast.Assign) and isinstance(st.value, ast.Tuple) and len(st.value.elts) == 2 \
-                        and all(isinstance(x, ast.Attribute) for x in st.value.elts) \
-                        and [x.attr for x in st.value.elts] == ["decoded_address", "values"] and isinstance(st.targets[0], ast.Name):
-                    capture_idx, capture_name = i, st.targets[0].id
-                if isinstance(st, ast.Assign) and isinstance(st.targets[0], ast.Attribute) and st.targets[0].attr == "dirty_bit":
-                    dirty_set = isinstance(st.value, ast.Constant) and st.value.value is True
-        miss = ("None is block_index", True) in facts
-        label = ("miss" if miss else "hit") + ("/dirty-victim" if dirty_test else "/clean-victim" if dirty_test is False else "")
-        key = f"CacheSet.write|{label}"
-        r.inst(key, None)
-        ret = p.term_node.value if isinstance(p.term_node, ast.Return) else None
-        second = ret.elts[1] if isinstance(ret, ast.Tuple) and len(ret.elts) == 2 else None
-        first = ret.elts[0] if isinstance(ret, ast.Tuple) and len(ret.elts) == 2 else None
-        if write_idx is None:
-            r.viol(key, f.loc(), "CacheSet.write: a path does not write the block", p.labels())
-        if not dirty_set:
-            r.viol(f"{key}|dirty", f.loc(), "CacheSet.write: a path leaves the written block clean: a later eviction "
-                   "would drop its contents (write-back never reaches memory)", p.labels())
-        if miss:
-            if dirty_test is None:
-                r.viol(f"{key}|dirty-test", f.loc(), "CacheSet.write: the miss path does not test the victim's dirty bit", p.labels())
-            elif dirty_test:
-                ok = capture_idx is not None and write_idx is not None and capture_idx < write_idx \
-                    and isinstance(second, ast.Name) and second.id == capture_name
-                if not ok:
-                    r.viol(f"{key}|capture", f.loc(), "CacheSet.write: a dirty victim's (address, values) are not captured "
-                           "before the block is overwritten and returned as the displaced block", p.labels())
-            if not (isinstance(first, ast.Constant) and first.value is False):
-                r.viol(f"{key}|hitflag", f.loc(), "CacheSet.write: miss path does not report hit=False")
-        else:
-            if not (isinstance(second, ast.Constant) and second.value is None and isinstance(first, ast.Constant) and first.value is True):
-                r.viol(f"{key}|ret", f.loc(), "CacheSet.write: hit path must return (True, None)")
-    r.floor(3)
+    from ..cachesetspec import dirty_rule
+    dirty_rule(ctx, "R12.set")
+    r = ctx.rule("R12.set", "")
     # CacheBlock.write stores values, address and validity
     f = m.method("CacheBlock", "write", own=True)
     stored = {t.attr for n in walk_no_nested(f.node) if isinstance(n, ast.Assign) for t in n.targets
